@@ -18,6 +18,8 @@ import (
 	sdkmath "cosmossdk.io/math"
 	codectypes "github.com/cosmos/cosmos-sdk/codec/types"
 	sdk "github.com/cosmos/cosmos-sdk/types"
+	"github.com/ethereum/go-ethereum/common"
+	ethcrypto "github.com/ethereum/go-ethereum/crypto"
 	"pgregory.net/rapid"
 
 	consensustypes "github.com/palomachain/paloma/v2/x/consensus/types"
@@ -26,6 +28,7 @@ import (
 	skywaytypes "github.com/palomachain/paloma/v2/x/skyway/types"
 	vtypes "github.com/palomachain/paloma/v2/x/valset/types"
 
+	"verif/harness/cabi"
 	"verif/harness/chain"
 	"verif/harness/evid"
 	"verif/harness/gen"
@@ -82,6 +85,7 @@ func TestC13_EvidenceOnlyForNeverIssuedCheckpoints(t *testing.T) {
 		replayAfterElection, forged, jailedByForgery := 0, 0, 0
 		retired := map[int][]*ecdsa.PrivateKey{} // remote keys a validator had registered earlier and replaced since
 		rotations, forgedWithRetired := 0, 0
+		declared := 0
 		skyNonce := uint64(0)
 
 		batches := func() []skywaytypes.InternalOutgoingTxBatch {
@@ -94,6 +98,9 @@ func TestC13_EvidenceOnlyForNeverIssuedCheckpoints(t *testing.T) {
 		observe := func() {
 			for _, b := range batches() {
 				issued[hex.EncodeToString(b.BytesToSign)] = true
+				if own := c13Checkpoint(t, b.ToExternal()); hex.EncodeToString(own) != hex.EncodeToString(b.BytesToSign) {
+					t.Fatalf("batch %d is stored with signing bytes %x, its content stands for checkpoint %x", b.BatchNonce, b.BytesToSign, own)
+				}
 				if b.GasEstimate > 0 {
 					elected[b.BatchNonce] = true
 				}
@@ -142,10 +149,9 @@ func TestC13_EvidenceOnlyForNeverIssuedCheckpoints(t *testing.T) {
 			if err != nil {
 				t.Fatalf("any: %v", err)
 			}
-			cp, err := subj.GetCheckpoint("compass-1")
-			if err != nil {
-				t.Fatalf("checkpoint: %v", err)
-			}
+			// the digest the subject stands for, computed by the harness from the batch's content (not by the code under
+			// test, and not taken from the subject's own bytes_to_sign field, which anybody can fill as they like)
+			cp := c13Checkpoint(t, subj)
 			before := c13Jailed(c)
 			msg := &skywaytypes.MsgSubmitBadSignatureEvidence{Metadata: chain.MD(who), Sender: who.Addr.String(), Subject: any, Signature: hex.EncodeToString(sig), ChainReferenceId: c13Chain}
 			oks := block(t, c.MustSign(who, msg))
@@ -267,10 +273,7 @@ func TestC13_EvidenceOnlyForNeverIssuedCheckpoints(t *testing.T) {
 				default:
 					b.AssigneeRemoteAddress = chain.EthAddr(chain.EthKeyFor("c13-other-relayer")).Bytes()
 				}
-				cp, err := b.GetCheckpoint("compass-1")
-				if err != nil {
-					t.Fatalf("checkpoint: %v", err)
-				}
+				cp := c13Checkpoint(t, b)
 				if issued[hex.EncodeToString(cp)] {
 					t.Skip("altered batch happens to be issued")
 				}
@@ -282,6 +285,23 @@ func TestC13_EvidenceOnlyForNeverIssuedCheckpoints(t *testing.T) {
 					forgedWithRetired++
 				}
 				submitEvidence(t, mallory, b, chain.EthSign(key, cp), fmt.Sprintf("forged batch signed with v%d's %s key", v.Index, which))
+			},
+			// a batch Paloma did issue, re-rendered with its bytes_to_sign field (which the checkpoint does not cover and
+			// the submitter fills freely) set to some other 32-byte digest, together with a validator's signature over that
+			// digest - e.g. a signature the validator made for an entirely different purpose. The subject is an issued batch:
+			// nobody may be jailed over it
+			"declaredDigest": func(t *rapid.T) {
+				bs := batches()
+				lv := live()
+				if len(bs) == 0 || len(lv) < 3 {
+					t.Skip("not now")
+				}
+				b := bs[rapid.IntRange(0, len(bs)-1).Draw(t, "batch")].ToExternal()
+				v := lv[rapid.IntRange(0, len(lv)-1).Draw(t, "val")]
+				d := ethcrypto.Keccak256([]byte(fmt.Sprintf("another digest %d", rapid.IntRange(0, 1<<20).Draw(t, "digest"))))
+				b.BytesToSign = d
+				declared++
+				submitEvidence(t, mallory, b, chain.EthSign(v.EthKeys[c13Chain], d), fmt.Sprintf("issued batch %d with a declared bytes_to_sign and v%d's signature over it", b.BatchNonce, v.Index))
 			},
 			// a validator replaces its remote account (new key) between two snapshots
 			"rotateKey": func(t *rapid.T) {
@@ -333,6 +353,9 @@ func TestC13_EvidenceOnlyForNeverIssuedCheckpoints(t *testing.T) {
 		}
 		if forged > 0 {
 			labels = append(labels, "forged")
+		}
+		if declared > 0 {
+			labels = append(labels, "issuedBatchWithDeclaredDigest")
 		}
 		if forgedWithRetired > 0 {
 			labels = append(labels, "forgedWithRetiredKey")
@@ -541,4 +564,22 @@ func TestC13_PruneNeverJailsEvidenceGivers(t *testing.T) {
 			return map[string]any{"stakes": stakes, "evidenceGroupByValidator": group, "report": report, "attestedPercent": pct, "jailed": newly}
 		})
 	})
+}
+
+// c13Checkpoint: the batch checkpoint as compass defines it, from the harness's own encoder.
+func c13Checkpoint(t *rapid.T, b skywaytypes.OutgoingTxBatch) []byte {
+	args := cabi.BatchArgs{}
+	for _, tx := range b.Transactions {
+		amt, ok := new(big.Int).SetString(tx.Erc20Token.Amount.String(), 10)
+		if !ok {
+			t.Fatalf("amount %v", tx.Erc20Token.Amount)
+		}
+		args.Receiver = append(args.Receiver, common.HexToAddress(tx.DestAddress))
+		args.Amount = append(args.Amount, amt)
+	}
+	cp, err := cabi.BatchCheckpoint(common.HexToAddress(b.TokenContract), args, new(big.Int).SetUint64(b.BatchNonce), "compass-1", new(big.Int).SetUint64(b.BatchTimeout), common.BytesToAddress(b.AssigneeRemoteAddress), new(big.Int).SetUint64(b.GasEstimate))
+	if err != nil {
+		t.Fatalf("checkpoint: %v", err)
+	}
+	return cp
 }
